@@ -447,6 +447,10 @@ func checkReaders(c *core.Ctx, tabs *Tables, prefix string, full bool, only ...s
 			{"short middle record", []string{">a", "ACGT", ">b", "ACG", ">c", "ACGT"}},
 			{"short last record", []string{">a", "ACGT", ">b", "ACGT", ">c", "AC"}},
 			{"long last record", []string{">a", "ACGT", ">b", "ACGTA"}},
+			{"long middle record", []string{">a", "ACGT", ">b", "ACGTA", ">c", "ACGT"}},
+			{"long middle record, wrapped", []string{">a", "AC", "GT", ">b", "ACG", "TAC", ">c", "ACGT"}},
+			{"short first record, the rest agree", []string{">a", "ACG", ">b", "ACGT", ">c", "ACGT"}},
+			{"every record one longer than the one before", []string{">a", "AC", ">b", "ACG", ">c", "ACGT"}},
 			{"short first record", []string{">a", "AC", ">b", "ACGT", ">c", "ACGT"}},
 			{"wrapped records of unequal total length", []string{">a", "AC", "GT", ">b", "AC", "G"}},
 			{"empty first record followed by longer records", []string{">a", ">b", "ACGT", ">c", "ACGT"}},
